@@ -46,9 +46,9 @@ Structure(r) ==
     r.emitted =>
       /\ r.accepted
       /\ LeadOk(In(r))
-      /\ HdrChk(In(r), SigAt, 62)
+      /\ HdrChk(In(r), SigAt, 62) /\ ReservedZero(In(r), SigAt)
       /\ SigPadZero(In(r))
-      /\ HdrChk(In(r), HdrAt(In(r)), 63)
+      /\ HdrChk(In(r), HdrAt(In(r)), 63) /\ ReservedZero(In(r), HdrAt(In(r)))
       /\ RpmlibOk(In(r), HdrAt(In(r)))
 
 \* ---- C05
